@@ -1946,26 +1946,26 @@ int main(int argc, char** argv)
 {
   const size_t M3 = 512 * 3 * NPRE;
   vector<vrt::Group> groups = {
-    { "mult", M3 + 2000, M3 + 20000, caseMult, 300, false },
-    { "mult-diag", M3 + 2000, M3 + 20000, caseMultDiag, 300, false },
-    { "mult-tridiag", M3 + 2400, M3 + 20000, caseMultTri, 300, false },
-    { "mult-complex", 2048 + 2000, 2048 + 20000, caseMultComplex<false>, 300, false },
-    { "mult-complex-diag", 2048 + 2500, 2048 + 20000, caseMultComplex<true>, 300, false },
-    { "add", 576 + 4000, 576 + 30000, caseAdd, 300, false },
+    { "mult", M3 + 2000, M3 + 60000, caseMult, 300, false },
+    { "mult-diag", M3 + 2000, M3 + 60000, caseMultDiag, 300, false },
+    { "mult-tridiag", M3 + 2400, M3 + 60000, caseMultTri, 300, false },
+    { "mult-complex", 2048 + 2000, 2048 + 50000, caseMultComplex<false>, 300, false },
+    { "mult-complex-diag", 2048 + 2500, 2048 + 50000, caseMultComplex<true>, 300, false },
+    { "add", 576 + 4000, 576 + 100000, caseAdd, 300, false },
     { "scale", 64 * 3 * 6, 64 * 3 * 6 * 4, caseScale, 300, false },
     { "transpose-copy", 2 * 64 * 3 * NPRE, 2 * 64 * 3 * NPRE, caseTranspose, 300, true },
-    { "pow", 8 * 11 * 3 * NPRE + 1000, 8 * 11 * 3 * NPRE + 5000, casePow, 300, false },
-    { "taylor", 8 * 7 * 3 * 4 + 1000, 8 * 7 * 3 * 4 + 5000, caseTaylor, 300, false },
-    { "kronecker", 2304 + 4000, 2304 + 40000, caseKron, 300, false },
-    { "hadamard", 2304 + 3000, 2304 + 30000, caseHadamard, 300, false },
-    { "directsum", 4096 + 3000, 4096 + 30000, caseDirectSum, 300, false },
+    { "pow", 8 * 11 * 3 * NPRE + 1000, 8 * 11 * 3 * NPRE + 20000, casePow, 300, false },
+    { "taylor", 8 * 7 * 3 * 4 + 1000, 8 * 7 * 3 * 4 + 20000, caseTaylor, 300, false },
+    { "kronecker", 2304 + 4000, 2304 + 100000, caseKron, 300, false },
+    { "hadamard", 2304 + 3000, 2304 + 100000, caseHadamard, 300, false },
+    { "directsum", 4096 + 3000, 4096 + 100000, caseDirectSum, 300, false },
     { "covar", 64 * 2 * NPRE, 64 * 2 * NPRE * 8, caseCovar, 300, false },
     { "extrema", 1920, 1920 * 8, caseExtrema, 300, false },
     { "build", 64 * 3 * NPRE, 64 * 3 * NPRE * 4, caseBuild, 300, false },
     { "shift", 64 * 3 * NPRE, 64 * 3 * NPRE, caseShift, 300, false },
-    { "storage", 20000, 300000, caseStorage, 300, false },
+    { "storage", 20000, 1000000, caseStorage, 300, false },
     { "lap-exhaustive", 3 + 81 + 625 + 19683, 3 + 81 + 625 + 19683 + 65536, caseLapExhaustive, 300, true },
-    { "lap-random", 24000, 400000, caseLapRandom, 300, false },
+    { "lap-random", 24000, 2000000, caseLapRandom, 300, false },
   };
   vrt::Meta meta;
   meta.rule = "One group per routine family. Conformable cases enumerate every operand shape 0..7 per dimension (mult family: all 512 (m,k,n); unary/binary element-wise routines: all 64 shapes; "
